@@ -1,5 +1,5 @@
 SPECIFICATION RSpec
-CONSTANTS PairSrc = "all" CtxU = "few" MaxFlow = 0 KeyU = "five" Writ = "all"
+CONSTANTS PairSrc = "all" CtxU = "few" MaxFlow = 0 KeyU = "five" Writ = "all" NObj = 0
 INVARIANT KeyCharStep
 INVARIANT ProjPartStep
 INVARIANT OwnerStep
